@@ -8,9 +8,9 @@ use crate::engine::{CaseResult, Fail, Outcome};
 use crate::props::codec::{CodecCase, Drain, Method, Nudge, ReadStep, Side};
 use crate::props::iovec_sm::{self, History, Op, Profile};
 use crate::props::stream_in::{Delivery, StreamSpec, Token};
-use crate::props::{c01, c02, c06, c07, c08, c09, c12};
+use crate::props::{c01, c02, c06, c07, c08, c09, c11, c12, c15, c16, c17};
 
-pub const TARGETS: [&str; 5] = ["hcobs_decode", "hcobs_roundtrip", "iovec_sm", "tlv_view", "stream_reader"];
+pub const TARGETS: [&str; 9] = ["hcobs_decode", "hcobs_roundtrip", "iovec_sm", "tlv_view", "stream_reader", "sliding_deque", "sorted_deque", "arena_read", "tlv_encode"];
 
 /// Which properties a target's oracles belong to (the first one is used for reporting).
 pub fn properties_of(target: &str) -> &'static [&'static str] {
@@ -20,6 +20,10 @@ pub fn properties_of(target: &str) -> &'static [&'static str] {
         "iovec_sm" => &["C03", "C04", "C05", "C10", "C20"],
         "tlv_view" => &["C12"],
         "stream_reader" => &["C06", "C08", "C05"],
+        "sliding_deque" => &["C15"],
+        "sorted_deque" => &["C16"],
+        "arena_read" => &["C17"],
+        "tlv_encode" => &["C11"],
         _ => &[],
     }
 }
@@ -194,12 +198,16 @@ fn iovec_op(c: &mut Cursor) -> Op {
 /// Targets (with run counts for a thorough campaign) that attack a property.
 pub fn targets_for(property: &str) -> Vec<(&'static str, u64, usize)> {
     // (target, runs per job, max input length)
-    let all: [(&str, u64, usize); 5] = [
+    let all: [(&str, u64, usize); 9] = [
         ("hcobs_decode", 150_000, 4096),
         ("hcobs_roundtrip", 4_000, 4096),
         ("iovec_sm", 6_000, 1024),
         ("tlv_view", 400_000, 512),
         ("stream_reader", 12_000, 4096),
+        ("sliding_deque", 300_000, 600),
+        ("sorted_deque", 300_000, 600),
+        ("arena_read", 100_000, 256),
+        ("tlv_encode", 150_000, 1024),
     ];
     all.iter().filter(|(t, _, _)| properties_of(t).contains(&property)).copied().collect()
 }
@@ -371,6 +379,160 @@ pub fn run_filtered(target: &str, data: &[u8], only: Option<&str>) -> (&'static 
             }
             first_err(results)
         }
+        "sliding_deque" => {
+            let backing = [c15::Backing::Vec, c15::Backing::Small2, c15::Backing::Small4][(c.u8() % 3) as usize];
+            let n_init = (c.u8() % 12) as usize;
+            let init = (0..n_init).map(|_| c.u8()).collect();
+            // (large deques are the `large` group's business: under AddressSanitizer every step of a big one costs milliseconds)
+            let init_fill = if c.u8() % 16 == 0 { c.u16() as u32 % 2000 } else { 0 };
+            let mut ops = vec![];
+            while !c.exhausted() && ops.len() < 400 {
+                ops.push(match c.u8() % 12 {
+                    0 | 1 | 2 | 3 => c15::Op::Push(c.u8()),
+                    4 | 5 => c15::Op::PopFront,
+                    6 | 7 => c15::Op::PopBack,
+                    8 => c15::Op::Advance(if c.u8() % 4 == 0 { c.u16() } else { c.u8() as u16 % 8 }),
+                    9 => match c.u8() % 4 {
+                        0 => c15::Op::Clear,
+                        _ => c15::Op::Slide,
+                    },
+                    10 => match c.u8() % 2 {
+                        0 => c15::Op::SetFront(c.u8()),
+                        _ => c15::Op::SetBack(c.u8()),
+                    },
+                    _ => c15::Op::SetIndex(c.u8(), c.u8()),
+                });
+            }
+            ("C15", c15::check_case(&c15::Case { backing, init, ops, init_fill }))
+        }
+        "sorted_deque" => {
+            let convention = [c16::Convention::PairVec, c16::Convention::PairSmall, c16::Convention::ItemVec][(c.u8() % 3) as usize];
+            let universe = match c.u8() % 4 {
+                0 => 0,
+                1 => 16,
+                2 => 64,
+                _ => 250,
+            };
+            let mut ops = vec![];
+            while !c.exhausted() && ops.len() < 400 {
+                ops.push(match c.u8() % 16 {
+                    0..=5 => c16::Op::PushNext { gap: c.u8(), value: c.u8() },
+                    6 => c16::Op::PushErased { key: c.u8() },
+                    7 | 8 => c16::Op::Find(c.u8()),
+                    9 | 10 | 11 => c16::Op::Remove(c.u8()),
+                    12 => c16::Op::PopFirst,
+                    13 => c16::Op::PopLast,
+                    14 => {
+                        if c.u8() % 8 == 0 {
+                            c16::Op::Clear
+                        } else {
+                            c16::Op::Remove(c.u8())
+                        }
+                    }
+                    _ => {
+                        if c.u8() % 4 == 0 {
+                            c16::Op::PushBad { back: c.u8(), value: c.u8() }
+                        } else {
+                            c16::Op::Find(c.u8())
+                        }
+                    }
+                });
+            }
+            ("C16", c16::check_case(&c16::Case { convention, ops, universe }))
+        }
+        "arena_read" => {
+            let step = |c: &mut Cursor| match c.u8() % 8 {
+                0 | 1 | 2 => c17::Step::Deliver(if c.u8() % 4 == 0 { c.u32() % 70_000 } else { c.u8() as u32 }),
+                3 => c17::Step::DeliverAll,
+                4 | 5 => c17::Step::Interrupted,
+                6 => c17::Step::Eof,
+                _ => c17::Step::Error(c.u8() % c17::KINDS.len() as u8),
+            };
+            let count = |c: &mut Cursor| match c.u8() % 6 {
+                0 => 0,
+                1 | 2 => c.u8() as u32,
+                3 => c.u16() as u32,
+                4 => 4000 + c.u16() as u32 % 200,
+                _ => c.u32() % 140_000,
+            };
+            if c.u8() % 2 == 0 {
+                let via = [c17::Via::Arena, c17::Via::EncoderReadN, c17::Via::DecoderReadN][(c.u8() % 3) as usize];
+                let arena_prep = c.u8() % 7;
+                let count = count(&mut c);
+                let attempts = 1 + c.u8() % 6;
+                let source_len = match c.u8() % 3 {
+                    0 => count,
+                    1 => count / 2,
+                    _ => count.saturating_add(c.u8() as u32),
+                };
+                let n = (c.u8() % 8) as usize;
+                let script = (0..n).map(|_| step(&mut c)).collect();
+                ("C17", c17::check_case(&c17::Case { via, script, count, attempts, arena_prep, source_len }))
+            } else {
+                let decode = c.u8() % 2 == 0;
+                let arena_prep = c.u8() % 7;
+                let n_calls = 1 + (c.u8() % 4) as usize;
+                let calls = (0..n_calls)
+                    .map(|_| {
+                        let n = (c.u8() % 5) as usize;
+                        let script: Vec<c17::Step> = (0..n).map(|_| step(&mut c)).collect();
+                        (script, count(&mut c) % 5000, 1 + c.u8() % 5)
+                    })
+                    .collect();
+                let payload = ByteSpec(vec![Seg::Lit(Hex(c.rest().to_vec()))]);
+                ("C17", c17::check_codec_case(&c17::CodecCase { decode, payload, calls, arena_prep }))
+            }
+        }
+        "tlv_encode" => {
+            fn val(c: &mut Cursor, depth: u8) -> c11::ValSpec {
+                let bytes = |c: &mut Cursor| -> Vec<u8> {
+                    let n = match c.u8() % 4 {
+                        0 => 0,
+                        1 | 2 => (c.u8() % 8) as usize,
+                        _ => c.u8() as usize,
+                    };
+                    (0..n).map(|_| c.u8()).collect()
+                };
+                let text = |c: &mut Cursor| -> String { String::from_utf8_lossy(&bytes(c)).into_owned() };
+                match c.u8() % if depth >= 3 { 6 } else { 8 } {
+                    0 => c11::ValSpec::Bytes(Hex(bytes(c))),
+                    1 => c11::ValSpec::CowBorrowed(Hex(bytes(c))),
+                    2 => c11::ValSpec::CowOwned(Hex(bytes(c))),
+                    3 => c11::ValSpec::Str(text(c)),
+                    4 => c11::ValSpec::CowStrBorrowed(text(c)),
+                    5 => c11::ValSpec::CowStrOwned(text(c)),
+                    6 => {
+                        let ctor = [c11::Ctor::New, c11::Ctor::FromSlice, c11::Ctor::FromSorted][(c.u8() % 3) as usize];
+                        let n = (c.u8() % 4) as usize;
+                        c11::ValSpec::Nested {
+                            ctor,
+                            pairs: (0..n).map(|_| (tag(c), val(c, depth + 1))).collect(),
+                        }
+                    }
+                    _ => {
+                        let n = (c.u8() % 4) as usize;
+                        c11::ValSpec::View {
+                            pairs: (0..n).map(|_| (tag(c), Hex(bytes(c)))).collect(),
+                        }
+                    }
+                }
+            }
+            fn tag(c: &mut Cursor) -> u32 {
+                match c.u8() % 4 {
+                    0 | 1 => (c.u8() % 6) as u32,
+                    2 => c.u32(),
+                    _ => u32::MAX - (c.u8() % 3) as u32,
+                }
+            }
+            let ctor = [c11::Ctor::New, c11::Ctor::FromSlice, c11::Ctor::FromSorted][(c.u8() % 3) as usize];
+            let sink = if c.u8() % 3 == 0 { c11::SinkKind::HcobsEncoder } else { c11::SinkKind::Iovec };
+            let n = (c.u8() % 40) as usize;
+            let mut pairs = vec![];
+            while pairs.len() < n && !c.exhausted() {
+                pairs.push((tag(&mut c), val(&mut c, 0)));
+            }
+            ("C11", c11::check_case(&c11::Case { ctor, pairs, sink }))
+        }
         _ => ("", Err(Fail::new("fuzz:unknown-target", target.to_string()))),
     }
 }
@@ -447,6 +609,8 @@ pub fn seeds(target: &str) -> Vec<Vec<u8>> {
             }
             out
         }
+        // Operation-sequence targets: any bytes are a case; start from a few pseudo-random strings.
+        "sliding_deque" | "sorted_deque" | "arena_read" | "tlv_encode" => (0..6u32).map(|i| noise(100 + i, 40 + 60 * i, if i % 2 == 0 { 0 } else { 1 })).collect(),
         _ => vec![],
     }
 }
